@@ -20,6 +20,11 @@ import (
 //
 //	http://www.llvm.org/docs/LangRef.html#identifiers
 func GlobalName(name string) string {
+	if len(name) > 0 && strings.Trim(name, decimal) == "" {
+		// A name consisting of digits only (of any length) must be quoted to
+		// distinguish it from an unnamed ID.
+		return `@"` + name + `"`
+	}
 	// Positive numeric global names are quoted to distinguish global names from
 	// global IDs; e.g.
 	//
@@ -59,6 +64,11 @@ func GlobalID(id int64) string {
 //
 //	http://www.llvm.org/docs/LangRef.html#identifiers
 func LocalName(name string) string {
+	if len(name) > 0 && strings.Trim(name, decimal) == "" {
+		// A name consisting of digits only (of any length) must be quoted to
+		// distinguish it from an unnamed ID.
+		return `%"` + name + `"`
+	}
 	// Positive numeric local names are quoted to distinguish local names from
 	// local IDs; e.g.
 	//
@@ -98,6 +108,11 @@ func LocalID(id int64) string {
 //
 //	http://www.llvm.org/docs/LangRef.html#identifiers
 func LabelName(name string) string {
+	if len(name) > 0 && strings.Trim(name, decimal) == "" {
+		// A name consisting of digits only (of any length) must be quoted to
+		// distinguish it from an unnamed ID.
+		return `"` + name + `":`
+	}
 	// Positive numeric label names are quoted to distinguish label names from
 	// label IDs; e.g.
 	//
@@ -166,6 +181,11 @@ func AttrGroupID(id int64) string {
 //
 //	http://www.llvm.org/docs/LangRef.html#identifiers
 func ComdatName(name string) string {
+	if len(name) > 0 && strings.Trim(name, decimal) == "" {
+		// A name consisting of digits only (of any length) must be quoted to
+		// distinguish it from an unnamed ID.
+		return `$"` + name + `"`
+	}
 	return "$" + EscapeIdent(name)
 }
 
